@@ -15,6 +15,13 @@ func runC11Long(h *H) {
 		n := 200
 		for i := 0; i < n; i++ {
 			ops = append(ops, a)
+			// a repeated release by the holder of 64 / 128 / 192 acquisitions ago (the distances at which a handle
+			// slab could come round again) and of a random earlier one, WHILE handle i holds the connection
+			if i >= 64 && (i%64 <= 2 || h.R.Intn(12) == 0) {
+				ops = append(ops, rel(i-64*(1+h.R.Intn(i/64))), ping(i))
+			} else if i > 0 && h.R.Intn(10) == 0 {
+				ops = append(ops, rel(h.R.Intn(i)), ping(i))
+			}
 			if i%7 == variant {
 				ops = append(ops, ping(i))
 			}
